@@ -111,10 +111,10 @@ impl Check for C08Check {
         "case = search program containing conda / condu / onceo whose head goals have 0, 1 or many answers delivered late, in \
          bursts, through iterators, from dfs blocks or (condu/onceo only) from never-ending producers, with arbitrary rest \
          goals, nested under conjunction and disjunction, x (reorders, yields). Oracle: the reference interpreter evaluates \
-         conda as soft-cut and keeps *every* head answer of condu/onceo, logging the choice; the engine's answer multiset \
-         must equal the reference multiset selected by some choice function that picks exactly one head answer per \
-         evaluated condu/onceo, and the first one wherever the head is order-deterministic (single chain/iterator leaf, dfs \
-         block, atomic goal). distinct = (program, decision trace); non-trivial = a committed-choice operator was \
+         conda as soft-cut and condu/onceo under an explicit choice script (which head answer each evaluated condu/onceo \
+         keeps; always the first one where the head is order-deterministic: single chain/iterator leaf, dfs block, atomic \
+         goal); the check walks the tree of choice scripts depth-first and the engine's answer multiset must equal the \
+         reference multiset of some script (<= 400 reference evaluations, else inconclusive). distinct = (program, decision trace); non-trivial = a committed-choice operator was \
          evaluated with a head that has an answer and at least one answer was compared or an empty result verified"
             .into()
     }
